@@ -20,23 +20,37 @@ F = Fraction
 
 # ======================================================================================== test problems
 class Fn:
-    """f(x) = sum_j q_j (x_j - t_j)^2 + c_j / x_j + w_j x_j  +  s (v.x - rho)^2 + k      (convex for q, c, s >= 0, x > 0)"""
+    """f(x) = sum_j q_j (x_j - t_j)^2 + c_j / x_j + w_j x_j  +  s (v.x - rho)^2 + k      (convex for q, c, s >= 0, x > 0)
+              + sum_j h_j max(0, sg_j (x_j - u_j))^2     (hinge terms, h >= 0, sg = +-1: convex and continuously differentiable; the
+                                                         gradient with respect to x_j is identically zero while the term is inactive)"""
 
-    def __init__(self, q, t, c, w, s, v, rho, k):
+    def __init__(self, q, t, c, w, s, v, rho, k, h=None, u=None, sg=None):
         self.q, self.t, self.c, self.w = [np.asarray(a, dtype=float) for a in (q, t, c, w)]
         self.s, self.v, self.rho, self.k = float(s), np.asarray(v, dtype=float), float(rho), float(k)
         self.recip = bool(np.any(self.c != 0))
+        n = self.q.size
+        self.h = np.zeros(n) if h is None else np.asarray(h, dtype=float)
+        self.u = np.zeros(n) if u is None else np.asarray(u, dtype=float)
+        self.sg = np.ones(n) if sg is None else np.asarray(sg, dtype=float)
+        self.hinged = h is not None
+
+    def hpos(self, x):
+        return np.maximum(0.0, self.sg * (x - self.u))
 
     def val(self, x):
         f = np.sum(self.q * (x - self.t) ** 2 + self.w * x) + self.s * (np.dot(self.v, x) - self.rho) ** 2 + self.k
         if self.recip:
             f = f + np.sum(self.c / x)
+        if self.hinged:
+            f = f + np.sum(self.h * self.hpos(x) ** 2)
         return f
 
     def grad(self, x):
         gr = 2 * self.q * (x - self.t) + self.w + 2 * self.s * (np.dot(self.v, x) - self.rho) * self.v
         if self.recip:
             gr = gr - self.c / x ** 2
+        if self.hinged:
+            gr = gr + 2 * self.h * self.sg * self.hpos(x)
         return gr
 
     def scale(self, x):
@@ -45,15 +59,27 @@ class Fn:
         if self.recip:
             a += np.abs(self.c / x).sum()
             b += np.abs(self.c / x ** 2).max()
+        if self.hinged:
+            a += np.abs(self.h * self.hpos(x) ** 2).sum()
+            b += np.abs(2 * self.h * self.hpos(x)).max()
         return float(max(1.0, a, b))
 
     def coq(self):
         return (f'(mkfn {ql(fr(self.q))} {ql(fr(self.t))} {ql(fr(self.c))} {ql(fr(self.w))} {qlit(F(self.s))} {ql(fr(self.v))} '
                 f'{qlit(F(self.rho))} {qlit(F(self.k))})')
 
+    def coq_h(self):
+        return f'({self.coq()}, mkh {ql(fr(self.h))} {ql(fr(self.u))} {ql(fr(self.sg))})'
+
     def tojson(self):
-        return dict(q=self.q.tolist(), t=self.t.tolist(), c=self.c.tolist(), w=self.w.tolist(), s=self.s, v=self.v.tolist(),
-                    rho=self.rho, k=self.k)
+        d = dict(q=self.q.tolist(), t=self.t.tolist(), c=self.c.tolist(), w=self.w.tolist(), s=self.s, v=self.v.tolist(),
+                 rho=self.rho, k=self.k)
+        if self.hinged:
+            d.update(h=self.h.tolist(), u=self.u.tolist(), sg=self.sg.tolist())
+        return d
+
+    def copy(self):
+        return Fn(**self.tojson())
 
 
 def fr(a):
@@ -115,8 +141,20 @@ def both_sequences_per_variable(spell, kinds, n, nsig):
     return n != nsig and all(spell[k] == 'variable' and kinds[k]['container'] in ('list', 'tuple') for k in ('xmin', 'xmax'))
 
 
-def gen_problem(rng, tier_big=False, shapes=None, profile='legacy', spell=None, kinds=None):
-    """random convex problem with known optimum (KKT construction); returns a JSON-able dict"""
+PATTERN_MODES = ('off-at-optimum', 'on-at-optimum', 'mirror-off', 'schedule-off', 'schedule-on', 'schedule-blink')
+SCHEDULES = {'schedule-off': [1.0, 1.0, 1.0, 0.5, 0.0], 'schedule-on': [0.0, 0.0, 0.0, 0.5, 1.0],
+             'schedule-blink': [1.0, 0.0, 0.0, 1.0, 0.0, 1.0, 1.0, 0.0, 0.5, 1.0]}
+
+
+def gen_problem(rng, tier_big=False, shapes=None, profile='legacy', spell=None, kinds=None, pattern=None, m=None, lo_range=None):
+    """random convex problem with known optimum (KKT construction); returns a JSON-able dict.
+    pattern = dict(mode, response, signal): response `response` (0 = objective, k = k-th constraint, clamped to the last one) depends on
+    the variable signal `signal` ONLY through hinge terms  h_j max(0, sg_j (x_j - u_j))^2, so that its sensitivity with respect to
+    that signal is an array in some iterations and None (module reports a vanishing block as None) in others:
+      off-at-optimum / mirror-off   the term is active at the start and inactive at the optimum (history: array, then None)
+      on-at-optimum                 inactive at the start, active at the optimum (history: None, then array)
+      schedule-off / -on / -blink   the term is always active (a plain quadratic) and its weight is set by fn_callback per iteration
+                                    (continuation: 1 1 1 .5 0 / 0 0 0 .5 1 / 1 0 0 1 0 1 1 0 .5 1; the last value stays)"""
     nsig = rng.choice((1, 1, 2, 2, 3))
     if shapes is None:
         shapes = []
@@ -132,6 +170,9 @@ def gen_problem(rng, tier_big=False, shapes=None, profile='legacy', spell=None, 
         kinds = random_kinds(rng, shapes, spell, profile)
     int_state = any(k in INT_KINDS for k in kinds['states'])
     lo0 = rnd(rng, 0.2, 1.0) if positive else rnd(rng, -2.0, 1.0)
+    if lo_range is not None:
+        lo0 = rnd(rng, *lo_range)
+        positive = positive and lo0 > 0
 
     def bound(nm, base):
         kind = spell[nm]
@@ -169,7 +210,29 @@ def gen_problem(rng, tier_big=False, shapes=None, profile='legacy', spell=None, 
             xs[j], at[j] = xmax[j], 1
         else:
             xs[j] = xmin[j] + dx[j] * rnd(rng, 0.15, 0.85)
-    m = rng.choice((1, 1, 2, 3))
+    m = m or rng.choice((1, 1, 2, 3))
+    psig, presp, pmode, x0frac, hinge = None, None, None, None, None
+    if pattern is not None:
+        pmode = pattern['mode']
+        psig = range(int(cum[pattern['signal']]), int(cum[pattern['signal'] + 1]))
+        presp = min(int(pattern['response']), m)
+        hu, hsg = np.zeros(n), np.ones(n)
+        x0frac = {}
+        for j in psig:
+            at[j] = 0
+            if pmode == 'off-at-optimum':
+                xs[j], x0frac[j], hu[j] = xmin[j] + dx[j] * rnd(rng, 0.15, 0.35), rnd(rng, 0.8, 0.95), xmin[j] + dx[j] * 0.55
+            elif pmode == 'on-at-optimum':
+                xs[j], x0frac[j], hu[j] = xmin[j] + dx[j] * rnd(rng, 0.7, 0.85), rnd(rng, 0.05, 0.2), xmin[j] + dx[j] * 0.45
+            elif pmode == 'mirror-off':
+                xs[j], x0frac[j], hu[j], hsg[j] = xmin[j] + dx[j] * rnd(rng, 0.7, 0.85), rnd(rng, 0.05, 0.2), xmin[j] + dx[j] * 0.45, -1.0
+            else:
+                xs[j], hu[j] = xmin[j] + dx[j] * rnd(rng, 0.3, 0.7), xmin[j] - 1.0
+        hh = np.zeros(n)
+        for j in psig:
+            hh[j] = rnd(rng, 0.5, 3.0)
+        wend = SCHEDULES[pmode][-1] if pmode in SCHEDULES else 1.0
+        hinge = dict(h=hh, u=np.round(hu, 6), sg=hsg, wend=wend)
     cons, lam = [], []
     for i in range(m):
         kind = rng.choice(('lin', 'lin', 'quad', 'recip', 'sqlin') if positive else ('lin', 'lin', 'quad', 'sqlin'))
@@ -178,6 +241,8 @@ def gen_problem(rng, tier_big=False, shapes=None, profile='legacy', spell=None, 
         if nsig > 1 and rng.random() < 0.3:       # a response that does not depend on one of the signals
             k = rng.randrange(nsig)
             dep[cum[k]:cum[k + 1]] = False
+        if presp == i + 1:                        # ... depends on the pattern signal through the hinge terms only
+            dep[list(psig)] = False
         if kind == 'lin':
             w = np.array([rnd(rng, 0.2, 2.0) * rng.choice((1, 1, -1)) for _ in range(n)]) * dep
             f = Fn(z, z, z, w, 0, z, 0, 0)
@@ -198,6 +263,8 @@ def gen_problem(rng, tier_big=False, shapes=None, profile='legacy', spell=None, 
         gsc = max(1e-3, float(np.abs(f.grad(xs)).max()))
         sc = round(1.0 / gsc, 3) if gsc > 4 or gsc < 0.25 else 1.0
         f = Fn(f.q * sc, f.t, f.c * sc, f.w * sc, f.s * sc, f.v, f.rho, 0)
+        if presp == i + 1:
+            f = Fn(f.q, f.t, f.c, f.w, f.s, f.v, f.rho, 0, h=hinge['h'] * hinge['wend'], u=hinge['u'], sg=hinge['sg'])     # as it is in the end
         f.k = -slack - f.val(xs)
         cons.append(f)
         lam.append(rnd(rng, 0.3, 2.0) if active else 0.0)
@@ -213,9 +280,16 @@ def gen_problem(rng, tier_big=False, shapes=None, profile='legacy', spell=None, 
     nu = np.array([rnd(rng, 0.2, 1.5) if a != 0 else 0.0 for a in at])  # bound multipliers
     need = need + np.where(at == -1, nu, 0) - np.where(at == 1, nu, 0)
     f0.w = need - f0.grad(xs)
+    if presp == 0:        # the objective depends on the pattern signal through the hinge terms only (the optimum is then not unique in
+        for a in (f0.q, f0.c, f0.v, f0.w):      # those variables when the terms are inactive: convergence is not demanded)
+            a[list(psig)] = 0.0
+        f0 = Fn(f0.q, f0.t, f0.c, f0.w, f0.s, f0.v, f0.rho, f0.k, h=hinge['h'] * hinge['wend'], u=hinge['u'], sg=hinge['sg'])
     # starting point
     x0 = np.array([float(xmin[j]) if (u := rng.random()) < 0.12 else float(xmax[j]) if u < 0.24 else
                    float(xmin[j] + dx[j] * rnd(rng, 0.05, 0.95)) for j in range(n)])
+    if x0frac:
+        for j, fr_ in x0frac.items():
+            x0[j] = float(xmin[j] + dx[j] * fr_)
     # ... held exactly by the kind of its signal (an integer / a float32 number inside the bounds)
     kinds = dict(kinds, states=list(kinds['states']))
     for i, k in enumerate(kinds['states']):
@@ -235,9 +309,15 @@ def gen_problem(rng, tier_big=False, shapes=None, profile='legacy', spell=None, 
                   asybound=rnd(rng, 2.0, 20.0), albefa=rnd(rng, 0.05, 0.4))
     if rng.random() < 0.3:
         kw['epsimin'] = rng.choice((1e-7, 1e-8, 3e-9, 1e-9))
-    return dict(shapes=shapes, xmin=xmin_spec, xmax=xmax_spec, move=move_spec, spell=spell, kinds=kinds, x0=x0.tolist(),
-                xstar=xs.tolist(), f=[f0.tojson()] + [g.tojson() for g in cons], kw=kw, maxit=rng.choice((40, 60)),
-                verbosity=rng.choice((0, 0, 0, 2, 3, 4)), none_sens=rng.random() < 0.5)
+    out = dict(shapes=shapes, xmin=xmin_spec, xmax=xmax_spec, move=move_spec, spell=spell, kinds=kinds, x0=x0.tolist(),
+               xstar=xs.tolist(), f=[f0.tojson()] + [g.tojson() for g in cons], kw=kw, maxit=rng.choice((40, 60)),
+               verbosity=rng.choice((0, 0, 0, 2, 3, 4)), none_sens=rng.random() < 0.5)
+    if pattern is not None:
+        out['f'][presp]['h'] = hinge['h'].tolist()           # base weights; the weight of iteration k multiplies them
+        out.update(pattern=dict(mode=pmode, response=presp, signal=int(pattern['signal'])), none_sens=True)
+        if pmode in SCHEDULES:
+            out['schedule'] = {str(presp): SCHEDULES[pmode]}
+    return out
 
 
 # ======================================================================================== running the implementation
@@ -264,6 +344,8 @@ def run_problem(pym, prob, maxit=None):
     if prob.get('_none_state'):
         variables[-1].state = None
     none_sens = prob.get('none_sens', False)
+    schedule = {int(k): list(v) for k, v in (prob.get('schedule') or {}).items()}
+    base_h = {i: fns[i].h.copy() for i in schedule}
 
     class Resp(pym.Module):
         def _prepare(self, fn):
@@ -284,17 +366,25 @@ def run_problem(pym, prob, maxit=None):
                     out.append(None)                     # exercises the `0 * v.state` branch of MMA.response
                 else:
                     out.append(float(part[0]) if s == 0 else part.copy())
+            rec.sens_log.append((fns.index(self.fn), [None if o is None else np.array(o, dtype=float).copy() for o in out]))
             return out
     responses = [pym.Signal(f'g{i}') for i in range(len(fns))]
     net = pym.Network([Resp(variables, responses[i], fns[i]) for i in range(len(fns))])
 
     rec = Rec()
     rec.calls, rec.callbacks, rec.sub, rec.first = [], [], [], None
+    rec.sens_log, rec.fns_at, rec.sens_mark, rec.held = [], [], [], []
     cur = {}
 
     def cb():
+        k = len(rec.callbacks)
         rec.callbacks.append([(np.ndim(v.state) == 0, np.array(v.state, dtype=float).ravel().copy(),
                                type(v.state).__name__, np.asarray(v.state).dtype) for v in variables])
+        # continuation: the weights of the hinge terms of this iteration (what a user's callback does between iterations)
+        for i, ws in schedule.items():
+            fns[i].h = base_h[i] * ws[min(k, len(ws) - 1)]
+        rec.fns_at.append([fn.copy() for fn in fns] if schedule else fns)       # the responses as they are in this iteration
+        rec.sens_mark.append(len(rec.sens_log))
 
     orig_mmasub, orig_subsolv, orig_residual = mma.MMA.mmasub, mma.subsolv, mma.residual
 
@@ -305,6 +395,9 @@ def run_problem(pym, prob, maxit=None):
         c.xold1 = None if self.xold1 is None else self.xold1.copy()
         c.xold2 = None if self.xold2 is None else self.xold2.copy()
         c.offset0 = None if self.offset is None else np.array(self.offset, dtype=float).copy()
+        c.fns = rec.fns_at[-1] if rec.fns_at else fns
+        c.sens = rec.sens_log[rec.sens_mark[-1]:] if rec.sens_mark else []      # what the modules reported in this iteration
+        c.states = rec.callbacks[-1] if rec.callbacks else None
         if rec.first is None:
             f = Rec()
             f.cumlens = np.array(self.cumlens).astype(int).tolist()
@@ -363,16 +456,21 @@ def run_problem(pym, prob, maxit=None):
         cur['sub'] = None
         s.msgs = buf.getvalue().count('MMA Subsolver')
         s.ret = [np.array(v, dtype=float).copy() for v in ret]
+        # the objects themselves, held by reference and re-inspected later (after the following subproblems, after the run, after later runs)
+        rec.held += [[f'subsolv result {nm} of iteration {len(rec.sub)}', v, np.array(v).copy()]
+                     for nm, v in zip(('x', 'y', 'z', 'lam', 'xsi', 'eta', 'mu', 'zet', 's'), ret) if isinstance(v, np.ndarray)]
         if 'call' in cur:
             cur['call'].sub = s
         rec.sub.append(s)
         return ret
 
     kw = dict(prob['kw'])
+    rec.owned = [[f'initial state of x{i}', v.state, np.array(v.state).copy()] for i, v in enumerate(variables) if isinstance(v.state, np.ndarray)]
     kw.update(xmin=spec_value(prob['xmin'], prob['spell']['xmin'], kinds['xmin']),
               xmax=spec_value(prob['xmax'], prob['spell']['xmax'], kinds['xmax']),
               move=spec_value(prob['move'], prob['spell']['move'], kinds['move']), maxit=maxit or prob['maxit'], tolx=0.0, tolf=0.0,
               verbosity=prob.get('verbosity', 0), fn_callback=cb)
+    rec.owned += [[nm, kw[nm], np.array(kw[nm], dtype=float).copy()] for nm in ('xmin', 'xmax', 'move') if isinstance(kw[nm], (np.ndarray, list, tuple))]
     rec.error = None
     mma.MMA.mmasub, mma.subsolv, mma.residual = w_mmasub, w_subsolv, w_residual
     out = io.StringIO()
@@ -396,6 +494,9 @@ def run_problem(pym, prob, maxit=None):
     rec.seconds = time.time() - t_run
     rec.variables, rec.responses, rec.fns, rec.cum, rec.n = variables, responses, fns, cum, n
     rec.final = np.concatenate([np.atleast_1d(np.asarray(v.state, dtype=float)).ravel() for v in variables])
+    for i, ws in schedule.items():
+        fns[i].h = base_h[i] * ws[-1]               # the problem as it is in the end (its optimum is prob['xstar'])
+    rec.final_states = [None if v.state is None else np.array(v.state).copy() for v in variables]
     return rec
 
 
@@ -565,9 +666,19 @@ def iteration_checks(rec, prob, k, full=True):
     for nm, a, b2 in (('low', s.low, c.low), ('upp', s.upp, c.upp)):
         if not np.array_equal(a, b2):       # (also an oracle statement) the stored asymptotes are the ones handed over
             pre += f'let {nm} := {qv(a)} in '
+    fns = getattr(c, 'fns', None) or rec.fns            # the responses as they are in this iteration
     if full:
-        scales = [rec.fns[i].scale(c.xval) for i in range(len(rec.fns))]
-        out.append(('responses', f'responses_ok [{"; ".join(fn.coq() for fn in rec.fns)}] xval {ql([F(v) for v in scales])} g dg'))
+        scales = [fn.scale(c.xval) for fn in fns]
+        if any(fn.hinged for fn in fns):
+            out.append(('responses', f'responses_h_ok [{"; ".join(fn.coq_h() for fn in fns)}] xval {ql([F(v) for v in scales])} g dg'))
+        else:
+            out.append(('responses', f'responses_ok [{"; ".join(fn.coq() for fn in fns)}] xval {ql([F(v) for v in scales])} g dg'))
+    # the rows of dg are built from what the modules reported in THIS iteration (None -> 0*state), exactly
+    sens = sorted(getattr(c, 'sens', []), key=lambda t: t[0])
+    if c.states is not None and [i for i, _ in sens] == list(range(len(fns))):
+        st = '[' + '; '.join(sval_coq(sc, v) for sc, v, _, _ in c.states) + ']'
+        rows = '[' + '; '.join('[' + '; '.join('None' if o is None else f'(Some {sval_coq(o.ndim == 0, o.ravel())})' for o in outs) + ']' for _, outs in sens) + ']'
+        out.append(('sensitivity_rows', f'sensrows_ok {st} {rows} dg'))
     out.append(('mmasub', f'mmasub_ok (mkP {qf(par["asyinit"])} {qf(par["asyincr"])} {qf(par["asydecr"])} {qf(par["asybound"])} '
                 f'{qf(par["albefa"])}) {h87} {h07} xval xmin xmax move xold1 {qopt(c.xold2)} {qopt(c.offset0)} g dg '
                 f'{qf(sX)} {qf(sP)} {qf(sB)} {qv(c.offset)} low upp alfa beta Pm Qm b'))
@@ -698,14 +809,20 @@ def oracle_run(ctx, rec, prob, label, check_convergence=True):
                 bad('MMA.response', 'one-value signal gets a scalar state, others a 1-D array', k, expected=(b - a == 1), got=is_scalar, signal=i)
         if not np.array_equal(c.xval, xk):
             bad('MMA.response', 'design handed to mmasub is the design written to the signals', k, expected=xk.tolist(), got=c.xval.tolist())
-        # ---- responses and sensitivities
-        for i, fn in enumerate(rec.fns):
+        # ---- responses and sensitivities: against the functions as they are in THIS iteration (a callback may have changed weights),
+        #      evaluated independently; a block the module reported as None counts as zero
+        if c.dg.shape != (len(c.fns), rec.n):
+            bad('MMA.response', 'dg handed to mmasub has one row per response and one column per design variable', k,
+                expected=[len(c.fns), rec.n], got=list(c.dg.shape))
+            continue
+        for i, fn in enumerate(c.fns):
             t = 1e-9 * fn.scale(c.xval)
             if abs(c.g[i] - fn.val(c.xval)) > t:
                 bad('MMA.response', 'g handed to mmasub is the response value', k, expected=float(fn.val(c.xval)), got=float(c.g[i]), response=i)
             if np.abs(c.dg[i] - fn.grad(c.xval)).max() > t:
                 bad('MMA.response', 'dg handed to mmasub is the response gradient (sensitivities reset between responses)', k,
-                    expected=fn.grad(c.xval).tolist(), got=c.dg[i].tolist(), response=i)
+                    expected=fn.grad(c.xval).tolist(), got=c.dg[i].tolist(), response=i, none_pattern=none_pattern(c), icls=hist_class(rec, k, cls))
+        note_patterns(ctx, rec, k)
         # ---- box, move limit, asymptotes
         if np.any(c.xval < gxmin - e) or np.any(c.xval > gxmax + e):
             bad('minimize_mma', 'design stays within [xmin, xmax]', k, got=c.xval.tolist())
@@ -729,6 +846,13 @@ def oracle_run(ctx, rec, prob, label, check_convergence=True):
         gr = s.P / ux ** 2 - s.Q / xl ** 2
         if np.abs(gr - c.dg).max() > 1e-9 * max(1.0, np.abs(c.dg).max(), (s.P / ux ** 2).max()):
             bad('MMA.mmasub', 'approximation gradient at xval equals dg', k, expected=c.dg.tolist(), got=gr.tolist())
+        # the clause of the property itself: the approximations handed to subsolv reproduce the gradient of every response at the
+        # current design (gradient evaluated independently of what MMA.response collected)
+        gtrue = np.array([fn.grad(c.xval) for fn in c.fns])
+        gsc = np.array([fn.scale(c.xval) for fn in c.fns])[:, None]
+        if (np.abs(gr - gtrue) > 1e-8 * np.maximum(gsc, (s.P / ux ** 2).max())).any():
+            bad('MMA.mmasub', 'approximations handed to subsolv reproduce the gradient of every response at the current design', k,
+                expected=gtrue.tolist(), got=gr.tolist(), none_pattern=none_pattern(c), icls=hist_class(rec, k, cls))
         if np.any(s.P < 0) or np.any(s.Q < 0):
             bad('MMA.mmasub', 'P, Q >= 0', k)
         # ---- subproblem solution
@@ -758,6 +882,9 @@ def oracle_run(ctx, rec, prob, label, check_convergence=True):
                 ctx.violation('impl-violates', *K_STALL, dict(pj, iteration=k, sub=sub_json(s)), expected=f'<= {0.9 * el}', got=rmax)
             else:
                 bad('subsolv', 'KKT residual of the returned point <= 0.9*epsi_last', k, expected=0.9 * el, got=rmax, sub=sub_json(s))
+    # ---- what the recorder holds by reference is still what it was: the arrays subsolv returned in EARLIER iterations, the caller's
+    #      bound / move-limit objects and initial state arrays
+    inspect_held(ctx, rec, prob, label, 'the end of its own run')
     # ---- convergence (validated, not proved)
     if check_convergence and rec.calls and float(np.max(gmove)) >= 1.0:
         ctx.count('convergence_not_demanded(move>=1: no effective move limit)')      # integer-typed move limits are 1
@@ -776,6 +903,74 @@ def oracle_run(ctx, rec, prob, label, check_convergence=True):
                           dict(pj, iterations=len(rec.calls), xfinal=rec.final.tolist()),
                           expected=f'distance <= {max(CONV_ABS, CONV_REL * d0)} and scaled constraint violation <= {CONV_G}',
                           got=dict(distance=d1, initial_distance=d0, constraint=gmax))
+
+
+def none_pattern(c):
+    """per response: which variable signals the module reported no sensitivity for (None) in this iteration"""
+    return [[o is None for o in out] for _, out in sorted(c.sens, key=lambda t: t[0])]
+
+
+def hist_class(rec, k, cls):
+    """input class of a gradient failure: did the None pattern of the sensitivities change before this iteration?"""
+    pats = [none_pattern(c) for c in rec.calls[:k + 1]]
+    return cls + (': None pattern of the sensitivities changed during the run' if any(p != pats[0] for p in pats) else '')
+
+
+def note_patterns(ctx, rec, k):
+    """input distribution: transitions of the None pattern between consecutive iterations, per (response, signal) block"""
+    if k == 0 or k >= len(rec.calls):
+        return
+    a, b = none_pattern(rec.calls[k - 1]), none_pattern(rec.calls[k])
+    for ra, rb in zip(a, b):
+        for x, y in zip(ra, rb):
+            if x != y:
+                ctx.count('sensitivity_block:' + ('array->None' if y else 'None->array'))
+
+
+def inspect_held(ctx, rec, prob, label, when):
+    """objects held by reference (arrays returned by subsolv, final states in the variable signals, caller-owned bounds / move limits /
+    initial state arrays) still hold what they held when they were recorded"""
+    ctx.search_evaluations += 1
+    case = dict(label=label, problem=prob, reinspected_after=when)
+    for item in rec.held:
+        name, obj, snap = item
+        if not np.array_equal(obj, snap, equal_nan=True):
+            ctx.violation('impl-violates', 'subsolv', 'the solution returned by subsolv is not modified afterwards (object held by the caller, re-inspected later)',
+                          'several subproblem solves / optimisations in one process', dict(case, object=name), expected=snap.tolist(), got=np.array(obj).tolist())
+            item[2] = np.array(obj).copy()
+            break
+    for item in rec.owned:
+        name, obj, snap = item
+        if not np.array_equal(np.array(obj, dtype=float), np.array(snap, dtype=float)):
+            ctx.violation('impl-violates', 'minimize_mma', 'caller-owned arrays (bounds, move limits, initial states) are not modified',
+                          'caller-owned arrays', dict(case, object=name), expected=np.array(snap, dtype=float).tolist(), got=np.array(obj, dtype=float).tolist())
+            item[2] = np.array(obj).copy()
+    if rec.error is None and getattr(rec, 'final_states', None) is not None:
+        for i, (v, snap) in enumerate(zip(rec.variables, rec.final_states)):
+            now = None if v.state is None else np.array(v.state)
+            same = (now is None and snap is None) or (now is not None and snap is not None and now.shape == snap.shape and np.array_equal(now, snap, equal_nan=True))
+            if not same:
+                f = rec.first
+                ctx.violation('impl-violates', 'minimize_mma', 'variable signals of a finished optimisation keep its final design (re-inspected after later runs)',
+                              'several optimisations in one process', dict(case, signal=i, xmin=None if f is None else f.xmin.tolist(), xmax=None if f is None else f.xmax.tolist()),
+                              expected=None if snap is None else snap.tolist(), got=None if now is None else now.tolist())
+                rec.final_states[i] = None if now is None else now.copy()
+
+
+class Ledger:
+    """the runs of this process: re-inspected after later runs (of equal and of different sizes)"""
+
+    def __init__(self):
+        self.items = []
+
+    def add(self, label, prob, rec):
+        rec.calls_n = len(rec.calls)
+        self.items.append((label, prob, rec))
+
+    def inspect(self, ctx, last=None, when=''):
+        items = self.items[:-1] if last is None else self.items[-last - 1:-1]
+        for label, prob, rec in items:
+            inspect_held(ctx, rec, prob, label, when)
 
 
 CONV_ABS, CONV_REL, CONV_G = 0.1, 0.3, 1e-4
@@ -925,6 +1120,26 @@ def run(ctx):
     for d in load_corpus():
         if d.get('kind') == 'problem':
             todo.append((f"corpus:{d['_file']}", d['problem'], d.get('maxit'), d.get('convergence', False), d.get('iterations')))
+    # ---- several optimisations of EQUAL size (n, m) with disjoint boxes, of a different size, with the same n spread over other
+    #      signals, and the first one again: every earlier run is re-inspected after every later one (Ledger), the repeated run must
+    #      reproduce the first one
+    for tag, kw_ in (('A', dict(shapes=[5], m=1)), ('B', dict(shapes=[5], m=1, lo_range=(6.0, 7.0))), ('C', dict(shapes=[3, 0], m=2)),
+                     ('D', dict(shapes=[2, 3], m=1, lo_range=(-9.0, -8.0))), ('E', dict(shapes=[0, 0], m=2)), ('F', dict(shapes=[0, 0], m=2, lo_range=(11.0, 12.0)))):
+        sp = gen_problem(rng, **kw_)
+        sp.update(verbosity=0, none_sens=False)
+        todo.append((f'sequence:{tag}', sp, 12, False, [0, 11]))
+    todo.append(('sequence:A again', json.loads(json.dumps(todo[-6][1])), 12, False, [11]))
+    # ---- responses whose None / array sensitivity pattern per variable signal CHANGES between iterations (hinge terms driven by the
+    #      iterate, weights driven by fn_callback), on every seed
+    pshapes = ([3, 0], [0, 2], [2, 3, 0], [0, 0, 4], [2, 2], [1, 3], [4, 0, 0])
+    presps = (1, 2, 1, 0, 3, 1, 1, 0, 2, 1, 1, 3)
+    for t in range(len(PATTERN_MODES) * (2 if quick else 6)):
+        mode = PATTERN_MODES[t % len(PATTERN_MODES)]
+        shapes = list(pshapes[t % len(pshapes)])
+        pp = gen_problem(rng, shapes=shapes, pattern=dict(mode=mode, response=presps[t % len(presps)], signal=(t // 2) % len(shapes)), m=(2, 1, 3)[t % 3])
+        pp['kw'] = {k: v for k, v in pp['kw'].items() if k in ('mmaversion', 'epsimin')}        # default asymptote parameters
+        pp['verbosity'] = (0, 4, 0, 3)[t % 4]
+        todo.append((f'pattern:{mode}:{t}', pp, 40, pp['pattern']['response'] != 0, None))
     n_act, n_inact = (14, 3) if quick else (100, 12)
     it_act, it_inact = (40, 10) if quick else (60, 20)
     a = b = 0
@@ -938,9 +1153,29 @@ def run(ctx):
             todo.append((f'gen:active{a}', prob, it_act, True, None))
             a += 1
     sub_samples = []
+    ledger = Ledger()
+    first_of = {}
     for label, prob, maxit, conv, only_its in todo:
         rec = run_problem(pym, prob, maxit=maxit)
+        ledger.add(label, prob, rec)
+        ledger.inspect(ctx, last=4, when=f'the run {label}')      # the four runs before this one still hold what they held
         n = rec.n
+        if label.startswith('sequence:'):
+            ctx.count('sequence_runs')
+            key = json.dumps(prob, sort_keys=True)
+            if key in first_of:          # the same problem later in the process: same iterates as the first time (pristine reference)
+                ctx.search_evaluations += 1
+                ref = first_of[key]
+                same = len(ref.calls) == len(rec.calls) and all(np.array_equal(a.xnew, b.xnew) for a, b in zip(ref.calls, rec.calls)) \
+                    and np.array_equal(ref.final, rec.final)
+                if not same:
+                    ctx.violation('impl-violates', 'minimize_mma', 'the same problem gives the same iterates whenever it is run in the process',
+                                  'several optimisations in one process', dict(label=label, problem=prob), expected=ref.final.tolist(), got=rec.final.tolist())
+            else:
+                first_of[key] = rec
+        if prob.get('pattern'):
+            ctx.count('pattern:' + prob['pattern']['mode'])
+            ctx.count('pattern_response=' + ('objective' if prob['pattern']['response'] == 0 else 'constraint'))
         ctx.count(f'n={n if n < 8 else "8+"}')
         ctx.count(f'm={len(prob["f"]) - 1}')
         ctx.count(f'signals={len(prob["shapes"])}')
@@ -968,6 +1203,15 @@ def run(ctx):
         ks = sorted(set(([0, 1, 2] if quick else [0, 1, 2, 3]) + [rng.randrange(3, max(4, len(rec.calls))) for _ in range(1 if quick else 3)] + [len(rec.calls) - 1]))
         if only_its is not None and quick:      # corpus entries about the variable handling: few iterations are compared in the quick tier
             ks = sorted(set(only_its))
+        if prob.get('pattern'):                 # the iterations at which the None pattern of the sensitivities changes (first of each direction)
+            pats = [none_pattern(c) for c in rec.calls]
+            flat = lambda p_: [x for r_ in p_ for x in r_]
+            tr = {}
+            for k2 in range(1, len(pats)):
+                for x, y in zip(flat(pats[k2 - 1]), flat(pats[k2])):
+                    if x != y:
+                        tr.setdefault(y, k2)
+            ks = sorted(set([0] + list(tr.values()) + ([len(rec.calls) - 1] if not quick else [])))
         for k in ks:
             if 0 <= k < len(rec.calls):
                 try:
@@ -981,6 +1225,13 @@ def run(ctx):
                     ctx.count('iterations_checked_with_abnormal_subsolv_exit')
         if rec.calls and len(sub_samples) < (6 if quick else 40):
             sub_samples.append((label, rec.calls[rng.randrange(len(rec.calls))].sub))
+    ledger.inspect(ctx, when='all runs of the process')
+    ctx.extra['runs_reinspected_at_the_end'] = len(ledger.items)
+    sizes = {}
+    for _, _, r_ in ledger.items:
+        if r_.first is not None:
+            sizes[(r_.n, r_.first.par['m'])] = sizes.get((r_.n, r_.first.par['m']), 0) + 1
+    ctx.extra['runs_sharing_their_size_(n,m)_with_another_run'] = sum(v for v in sizes.values() if v > 1)
     # ---------------- direct calls
     direct_cases(ctx, pym, mma, putils, add, sub_samples)
     malformed(ctx, pym, add)
